@@ -298,7 +298,7 @@ MMRight(s) ==
     IF r = 0 THEN {<<>>, <<2>>} ELSE
     LET k == s[r] IN
     {<<k>>, <<k, 2>>, <<k, 1>>, <<2, k, 2>>, <<k + 1, 2>>, <<>>}
-    \cup (IF r = 3 THEN {<<s[1], k, 2>>, <<1, k, 2>>} ELSE {})
+    \cup (IF r = 3 THEN {<<s[1], k, 2>>, <<1, k, 2>>, <<2, 1, k, 2>>} ELSE {})     \* the last: 4-D, batch (2,1) against (s1,)
     \cup (IF L2 THEN {<<k, 3>>, <<3, k, 1>>, <<k + 1>>} ELSE {})
 \* C @ cur
 MMLeft(s) ==
@@ -306,7 +306,7 @@ MMLeft(s) ==
     IF r = 0 THEN {<<>>, <<2>>} ELSE
     LET k == IF r = 1 THEN s[1] ELSE s[r - 1] IN
     {<<k>>, <<2, k>>, <<1, k>>, <<2, 2, k>>, <<2, k + 1>>, <<>>}
-    \cup (IF r = 3 THEN {<<s[1], 2, k>>, <<1, 2, k>>} ELSE {})
+    \cup (IF r = 3 THEN {<<s[1], 2, k>>, <<1, 2, k>>, <<2, 1, 2, k>>} ELSE {})
     \cup (IF L2 THEN {<<3, k>>, <<3, 1, k>>, <<k + 1>>} ELSE {})
 
 Alt(n) == [t \in 1..n |-> t % 2 = 1]
@@ -433,8 +433,9 @@ ConcatCases(s) ==
                                          [axis |-> ax0, parts |-> <<PCur, PX>>],
                                          [axis |-> ax0, parts |-> <<PC(Num(<<>>, 4)), PCur>>] >> ELSE <<>>)
     IN FlattenSeq([i \in 1..Len(axes) |-> one(axes[i])])
-DoConcat == More /\ On("join") /\ kind # "R" /\ LET S == ConcatCases(cur.sh) IN \E i \in 1..Len(S) :
-    Outcome(ConcatN(PArrs(S[i].parts), S[i].axis), [op |-> "concat", axis |-> S[i].axis, parts |-> S[i].parts], kind, Struct)
+DoConcat == More /\ On("join") /\ LET S == ConcatCases(cur.sh) IN \E i \in 1..Len(S) :
+    /\ (kind = "R" => \A q \in 1..Len(S[i].parts) : S[i].parts[q].t # "X")      \* X lives in another model than a random expression
+    /\     Outcome(ConcatN(PArrs(S[i].parts), S[i].axis), [op |-> "concat", axis |-> S[i].axis, parts |-> S[i].parts], kind, Struct)
 
 \* rstack(a1, .., an): join along axis 0; an argument that is a LIST is joined along axis 1 first
 \* cstack(a1, .., an): join along axis 1; a LIST argument is joined along axis 0 first  (docs/get_start.md)
@@ -452,12 +453,12 @@ StackRes(args, inner, outer) ==
     LET parts == [i \in 1..Len(args) |-> IF Len(args[i]) = 1 THEN OK(PArr(args[i][1])) ELSE ConcatN(PArrs(args[i]), inner)] IN
     IF \E i \in 1..Len(parts) : ~parts[i].ok THEN ERR
     ELSE ConcatN([i \in 1..Len(parts) |-> parts[i].a], outer)
-DoRStack == More /\ On("join") /\ kind # "R" /\ LET S == StackArgs(cur.sh) IN \E i \in 1..Len(S) :
+DoRStack == More /\ On("join") /\ LET S == StackArgs(cur.sh) IN \E i \in 1..Len(S) :
     Outcome(StackRes(S[i], 1, 0), [op |-> "rstack", args |-> S[i]], kind, Struct)
-DoCStack == More /\ On("join") /\ kind # "R" /\ LET S == StackArgs(cur.sh) IN \E i \in 1..Len(S) :
+DoCStack == More /\ On("join") /\ LET S == StackArgs(cur.sh) IN \E i \in 1..Len(S) :
     Outcome(StackRes(S[i], 0, 1), [op |-> "cstack", args |-> S[i]], kind, Struct)
 \* vec(a1, .., an): the 1-D array of the given scalars
-DoVec == More /\ On("join") /\ kind # "R" /\ \E form \in {1, 2} :
+DoVec == More /\ On("join") /\ \E form \in {1, 2} :
     LET one == [sh |-> <<1>>, d |-> cur.d]
         parts == IF form = 1 THEN <<PCur, PC(Num(<<>>, 6)), PCur>> ELSE <<PC(Num(<<1>>, 7)), PCur>>
         arrs == [i \in 1..Len(parts) |-> IF parts[i].t = "cur" THEN one ELSE [sh |-> <<1>>, d |-> CArr(parts[i].c).d]]
